@@ -220,23 +220,20 @@ func (v *validator) constant(in *Inst) {
 			}
 		}
 	case OpConstantComposite, OpSpecConstantComposite:
-		var want []uint32
+		wantN := int64(t.Count)
 		switch t.Kind {
 		case TVector, TMatrix, TArray:
 			if t.Kind == TArray && t.Count == 0 {
 				return
 			}
-			for i := uint32(0); i < t.Count; i++ {
-				want = append(want, t.Elem)
-			}
 		case TStruct:
-			want = t.Members
+			wantN = int64(len(t.Members))
 		default:
 			v.add(rConstType, in.Index, "%s has non-composite type %s", in.Name(), m.TypeString(in.Type))
 			return
 		}
-		if len(in.Args) != len(want) {
-			v.add(rConstType, in.Index, "%s of %s has %d constituents, want %d", in.Name(), m.TypeString(in.Type), len(in.Args), len(want))
+		if int64(len(in.Args)) != wantN {
+			v.add(rConstType, in.Index, "%s of %s has %d constituents, want %d", in.Name(), m.TypeString(in.Type), len(in.Args), wantN)
 			return
 		}
 		for i, c := range in.Args {
@@ -247,8 +244,12 @@ func (v *validator) constant(in *Inst) {
 				v.add(rConstType, in.Index, "constituent %d (%%%d) is defined by %s, not a constant", i, c, m.defs[c].Name())
 				continue
 			}
-			if ct := m.TypeOf(c); ct != want[i] {
-				v.add(rConstType, in.Index, "constituent %d (%%%d) has type %s, want %s", i, c, m.TypeString(ct), m.TypeString(want[i]))
+			w := t.Elem
+			if t.Kind == TStruct {
+				w = t.Members[i]
+			}
+			if ct := m.TypeOf(c); ct != w {
+				v.add(rConstType, in.Index, "constituent %d (%%%d) has type %s, want %s", i, c, m.TypeString(ct), m.TypeString(w))
 			}
 		}
 	case OpConstantNull:
@@ -684,4 +685,25 @@ func (v *validator) blockName(f *Function, b int) string {
 		return "<function body>"
 	}
 	return "%" + utoa(f.Blocks[b].Label)
+}
+
+// DuplicatePointerTypes lists OpTypePointer declarations repeating an earlier one.  SPIR-V
+// explicitly allows this (§2.8: pointer types may have multiple ids "to allow for differing
+// decorations"), so it is NOT part of Validate; checks may count it as an observation.
+func DuplicatePointerTypes(m *Module) []Issue {
+	var out []Issue
+	seen := map[string]int{}
+	for _, in := range m.Insts {
+		if in.Op != OpTypePointer || !in.Known {
+			continue
+		}
+		k := typeKey(in)
+		if p, dup := seen[k]; dup {
+			out = append(out, Issue{Rule: "observation.duplicate-pointer-type", Inst: in.Index,
+				Msg: "OpTypePointer %" + utoa(in.Result) + " repeats %" + utoa(m.Insts[p].Result)})
+		} else {
+			seen[k] = in.Index
+		}
+	}
+	return out
 }
